@@ -1,0 +1,14 @@
+// Copyright (C) 2026 Storj Labs, Inc.
+// See LICENSE for copying information.
+
+//go:build verif
+// +build verif
+
+package drpcwire
+
+// VerifBufCap reports the capacity and length of the reader's internal read
+// buffer and the length of the unparsed remainder. It is only available with
+// the verif build tag.
+func (r *Reader) VerifBufCap() (bufCap, bufLen, currLen int) {
+	return cap(r.buf), len(r.buf), len(r.curr)
+}
